@@ -62,5 +62,5 @@ package base
 //@   ensures result == rwmax(rw, value, record) && result >= 0
 //@ extern func (rw LogRewriter) WriteFieldBody(value string, record *LogRecord, buffer []byte) int
 //@   requires len(buffer) >= rwmax(rw, value, record)
-//@   modifies buffer[: rwmax(rw, value, record)]
+//@   modifies buffer[: rwmax(rw, value, record)], record.Unescaped
 //@   ensures  0 <= result && result <= rwmax(rw, value, record)
